@@ -136,13 +136,25 @@ fn walk(words: &[u8], packet_lens: &[u32]) -> Result<Vec<u64>, Fail> {
     let mut pos: u64 = 0;
     let mut wi = 0usize;
     let all: Vec<&[u8]> = words.chunks_exact(10).collect();
+    // The state is carried from packet to packet whatever the headers say (only a payload error
+    // resets it): header fields are drawn per packet - page counter back to 0, stop bit set, new orbit,
+    // other trigger bits - from a generator seeded by the word sequence itself.
+    let mut hrng = fpsim_rt::rng::Rng::new(fpsim_rt::rng::hash_bytes(words));
     for (pi, &n) in packet_lens.iter().enumerate() {
         let n = n as usize;
         let rdh = Rdh {
             data_format: 2,
             memory_size: (64 + n * 10) as u16,
             offset_next: (64 + n * 10) as u16,
-            pages_counter: pi as u16,
+            pages_counter: match hrng.below(4) {
+                0 => 0,
+                1 => 1,
+                2 => pi as u16,
+                _ => hrng.below(300) as u16,
+            },
+            stop_bit: if hrng.chance(1, 4) { 1 } else { 0 },
+            orbit: hrng.next_u32(),
+            trigger_type: *hrng.pick(&[0x6A03u32, 0x4813, 0x10, 0x1, 0x893]),
             fee_id: 0x000C,
             ..Default::default()
         };
@@ -172,6 +184,14 @@ fn walk(words: &[u8], packet_lens: &[u32]) -> Result<Vec<u64>, Fail> {
                             "fsm",
                             "legal-word-reported-unrecognised",
                             format!("word {wi} {:02X?} is legal in {model:?} but was reported: {m}", w),
+                        ));
+                    }
+                    // nor as carrying the wrong identifier for the state the validator believes to be in
+                    if let Some(m) = msgs.iter().find(|m| m.contains("ID is not 0x")) {
+                        return Err(Fail::new(
+                            "fsm",
+                            "legal-word-reported-wrong-id",
+                            format!("word {wi} {:02X?} is the word the diagram expects in {model:?} but was reported: {m}", w),
                         ));
                     }
                     model = next;
